@@ -20,13 +20,13 @@ TEXT = {
          "invariant monitor on recorded traces + saturation probe"),
  "C04": ("Runtime monitor: outstanding-message counter (yielded - finished) checked after every event for all 20 (A,P) pairs under backlog.",
          "counter invariant over recorded yield/finish/ack events + configuration wiring probe (command line / run_receiver_task -> Receiver)"),
- "C05": ("Runtime monitor in virtual time: drain, at-most-one-further-message, exact N and bounded-progress return deadlines, with stop-instant sweeps; known finding F6 classified by mechanism.",
-         "virtual-time bounded-progress oracle over shutdown histories"),
+ "C05": ("Runtime monitor in virtual time: drain, at-most-one-further-message, exact N and bounded-progress return deadlines, with stop-instant sweeps; known finding F6 classified by mechanism. Cross-check on real processes: `python -m taskiq worker` with a scripted broker module is stopped by SIGINT/SIGTERM and judged on the order of the worker's own event log.",
+         "virtual-time bounded-progress oracle over shutdown histories + log-order oracle over real `taskiq worker` processes"),
  "C06": ("Runtime monitor: every dependency/task echoes the Context it sees; the owner is known independently via a contextvar bound to the callback's asyncio task; decisive interleavings are forced by slow async dependencies.",
          "ownership monitor (contextvar vs echoed Context) under forced interleavings; gather()/second-broker/forked-id probes"),
  "C07": ("Runtime monitor on the objects handed to the result backend compared with the scripted outcome of each execution (count, id, is_err, value, error class/args, timeout, labels), with injected backend failures.",
          "reference-outcome comparison at the result-backend boundary"),
- "C08": ("Differential runtime check: generated task signatures and argument splits go through the real kicker -> formatter -> Receiver.callback path; received values are compared (strict type+value) with an independent binding/conversion model.",
+ "C08": ("Differential runtime check: generated task signatures and argument splits go through the real kicker -> formatter -> Receiver.callback path; received values (named, keyword-only, *args/**kwargs and dependency parameters) are compared (strict type+value) with an independent binding/conversion model.",
          "generated signatures + independent binding model (differential monitor)"),
  "C09": ("Runtime monitor of labels at every delivery (middleware, Context, stored result) through real encode/decode, retries and requeues, and of the task's declared labels after every kicker operation.",
          "end-to-end label history monitor with strict type equality"),
@@ -40,7 +40,7 @@ TEXT = {
          "controlled-clock differential monitor vs independent cron matcher"),
  "C14": ("Runtime check of the real get_task_delay under a controlled clock against exact integer-microsecond arithmetic, boundary-biased.",
          "controlled-clock monitor with exact integer oracle"),
- "C15": ("Runtime monitor: the real run_scheduler_loop runs many virtual minutes with recording sources/broker, injected latencies and failures; oracle over poll instants and per-minute send counts; known finding F7 classified by mechanism.",
+ "C15": ("Runtime monitor: the real run_scheduler_loop runs many virtual minutes with recording sources/broker, injected latencies and failures; oracle over poll instants and per-minute send counts; entered directly, through taskiq.api and through the CLI's run_scheduler (--skip-first-run); known finding F7 classified by mechanism.",
          "virtual-time loop monitoring + per-occurrence send-count oracle"),
  "C16": ("Runtime monitor of on_ready callback sequences and decoded payloads, and of LabelScheduleSource listings before/after firings against a multiset model.",
          "callback-sequence and multiset-model monitor"),
